@@ -9,6 +9,12 @@ use zvt::packets as p;
 use zvt::sequences as s;
 use zvt::{encoding, ZvtParser, ZvtSerializer};
 
+/// Dispatch key of a shipped type ("packets::tlv::X", "feig::packets::X").
+pub fn key_of<T>() -> &'static str {
+    let n = std::any::type_name::<T>();
+    n.strip_prefix("zvt::").unwrap_or(n)
+}
+
 fn run<T>(bytes: &[u8]) -> Outcome
 where
     T: ZvtSerializer + Debug + PartialEq,
@@ -19,6 +25,7 @@ where
         Ok((x, rest)) => {
             let rest = rest.len();
             let reenc = x.zvt_serialize();
+            let _g = refcodec::runaway::begin("decode of the re-serialisation", key_of::<T>(), &reenc);
             let (re_eq, re_rest, re_err, re_debug) = match T::zvt_deserialize(&reenc) {
                 Ok((y, r)) => (y == x, r.len(), None, format!("{y:?}")),
                 Err(e) => (false, 0, Some(format!("{e:?}")), String::new()),
